@@ -41,7 +41,7 @@ def mask_entries(ctx):
                 mask = [bool(p) for p in pat] if k % 8 == 2 else [int(p) for p in pat]
             fams = list(cps) if (k % 3 == 0 or not ctx.quick()) else [list(cps)[k % 4]]
             for img in (False, True):
-                if img and (n > 3 or (ctx.quick() and k % 2)):
+                if img and n > 3:
                     continue
                 for cx in (None, 2):
                     if cx and ctx.quick() and k % 2 == 0:
